@@ -480,6 +480,8 @@ class Interp:
                 base = self.ev(e.args[0])
                 if isinstance(base, DtValue) and base.name == "DTSTART" and (dotted(e.args[1]) or "").split(".")[-1] == "datetime":
                     return self.sc.isdt
+                if isinstance(base, DtValue) and (dotted(e.args[1]) or "").split(".")[-1] == "date":
+                    return True       # datetime is a subclass of date: true for DATE and for DATE-TIME values
                 self.fail(e, "isinstance")
             helper = self.resolver(d) if self.resolver is not None else None
             if isinstance(helper, ast.ClassDef):
